@@ -367,7 +367,7 @@ class ExhaustiveStream(C08Stream):
                     body = "\n".join(combo)
                     # final newline: alternate deterministically so both states are covered at every length
                     for t in ((body + "\n", body) if n <= 3 else ((body + "\n") if (hash_combo(combo) & 1) else body,)):
-                        for rep in "10":
+                        for rep in ("10" if n <= 5 else "1"):
                             out.append({"s": sname, "f": "000" + rep + "0", "cpr": ["SPDX-FileCopyrightText: 2020 Jane Doe"],
                                         "lic": ["MIT"], "con": [], "t": t})
         return attach_bad(out)
